@@ -427,3 +427,121 @@ def rule_cursor_coupling(progs, tier, impl_re=r"^bits::elias_fano::(EliasFanoCur
                     res.bad(key, "%s stores to `%s` a position that is neither trailing_zeros of the value kept in `%s` nor the source of that value's mask: the cursor invariant (lowest set bit of %s is the current element) is not re-established on this path, so the next relative move starts from the wrong bit" % (f.id, pos_field, bits_field, bits_field), f.loc(line))
         res.require_floor(floor, "stores to %s" % pos_field)
     return out
+
+
+# ---------------------------------------------------------------------------------------------
+# LAYOUT(rank directory): the writer's packing of an L1/L2 entry and the reader's unpacking agree
+def rule_rank_layout(progs, tier, name="LAYOUT(rank directory)"):
+    """`RankDirectory::build` packs a cumulative count into the low bits of a u128 and 7 block
+    offsets above it (`offset << (B + i*S)`); `rank_at_word` unpacks them (`entry & M1`,
+    `(entry >> (B + i*S)) & M2`).  The reader must keep every bit the writer stores: M1 = 2^B - 1
+    with B the bit width of the writer's L1 count type, M2 = 2^S - 1, and both sides use the same
+    base B and stride S.  No input smaller than 2^28 one-bits separates a narrower M1 from the
+    right one, so this clause is decided on the code's shape rather than by evaluation."""
+    WIDTH = {"u8": 8, "u16": 16, "u32": 32, "u64": 64, "usize": 64}
+    out = []
+    for cfg, P in progs.items():
+        res = RuleResult(name, cfg)
+        out.append(res)
+        rd = P.fns.get("bits::rank::RankDirectory::rank_at_word")
+        wr = P.fns.get("bits::rank::RankDirectory::build")
+        if rd is None or wr is None:
+            res.bad("%s:anchor" % name, "RankDirectory::build / rank_at_word not found (fail closed)")
+            continue
+
+        def shift_consts(f, opname):
+            """For each `x <op> amount`: follow `amount` through copies / casts to `B + (i * S)` and return (B, S)."""
+            defs = local_defs(f)
+            found = []
+
+            def one_def(l):
+                ds = [d for d in defs.get(l, []) if d[1] == "rv"]
+                return ds[0][2] if len(ds) == 1 else None
+
+            def chase(l, depth=0):
+                rv = one_def(l)
+                if rv is None or depth > 6:
+                    return None
+                if rv[0] in ("use", "cast"):
+                    pl = op_place(rv[1] if rv[0] == "use" else rv[2])
+                    return chase(pl[0], depth + 1) if pl is not None and not pl[1] else None
+                return rv
+
+            for b in f.blocks:
+                for s in b["s"]:
+                    if s[0] == "a" and s[2][0] == "bin" and s[2][1] == opname:
+                        amt = op_place(s[2][3])
+                        if amt is None:
+                            continue
+                        rv = chase(amt[0])
+                        if rv is None or rv[0] != "bin" or rv[1] != "Add":
+                            found.append((s[3], None))
+                            continue
+                        ks = [o[1].get("v") for o in (rv[2], rv[3]) if o[0] == "k"]
+                        others = [op_place(o) for o in (rv[2], rv[3]) if o[0] != "k"]
+                        if len(ks) != 1 or len(others) != 1 or others[0] is None:
+                            found.append((s[3], None))
+                            continue
+                        rv2 = chase(others[0][0])
+                        if rv2 is None or rv2[0] != "bin" or rv2[1] != "Mul":
+                            found.append((s[3], None))
+                            continue
+                        ks2 = [o[1].get("v") for o in (rv2[2], rv2[3]) if o[0] == "k"]
+                        found.append((s[3], (ks[0], ks2[0]) if len(ks2) == 1 else None))
+            return found
+
+        # reader: masks applied to the u128 entry, shift base and stride
+        masks = []
+        for b in rd.blocks:
+            for s in b["s"]:
+                if s[0] == "a" and s[2][0] == "bin" and s[2][1] == "BitAnd":
+                    for o in (s[2][2], s[2][3]):
+                        if o[0] == "k" and o[1].get("ty") == "u128" and isinstance(o[1].get("v"), int):
+                            masks.append((s[3], o[1]["v"]))
+                if s[0] == "a" and s[2][0] == "cast" and s[2][1] == "IntToInt" and s[2][3] in WIDTH:
+                    src = op_place(s[2][2])
+                    if src is not None and rd.locals[src[0]] == "u128" and not src[1]:
+                        # `entry as u32`: a truncating cast is a mask of that width (only when taken from the raw entry)
+                        sl = backward_slice(rd, src[0], max_nodes=12, through_calls=False)
+                        if "Shr" not in sl.binops and "BitAnd" not in sl.binops:
+                            masks.append((s[3], (1 << WIDTH[s[2][3]]) - 1))
+        rshift = shift_consts(rd, "Shr")
+        wshift = shift_consts(wr, "Shl")
+        # writer: width of the L1 count (a cast to u128 of a narrower local that is not shifted)
+        shifted_srcs = set()
+        for b in wr.blocks:
+            for s in b["s"]:
+                if s[0] == "a" and s[2][0] == "bin" and s[2][1] == "Shl":
+                    pl = op_place(s[2][2])
+                    if pl is not None:
+                        shifted_srcs.add(pl[0])
+        l1_widths = []
+        for b in wr.blocks:
+            for s in b["s"]:
+                if s[0] == "a" and s[2][0] == "cast" and s[2][1] == "IntToInt" and s[2][3] == "u128" and s[1][0] not in shifted_srcs:
+                    src = op_place(s[2][2])
+                    if src is not None and wr.locals[src[0]] in WIDTH:
+                        l1_widths.append((s[3], wr.locals[src[0]], WIDTH[wr.locals[src[0]]]))
+        if len(masks) != 2 or len(rshift) != 1 or len(wshift) != 1 or len(l1_widths) != 1:
+            res.bad("%s:shape" % name, "pack / unpack idiom not recognised: reader masks %r, reader shifts %r, writer shifts %r, writer L1 casts %r (fail closed)" % (masks, rshift, wshift, l1_widths), rd.loc())
+            continue
+        m1 = max(m for _, m in masks)
+        m2 = min(m for _, m in masks)
+        if rshift[0][1] is None or wshift[0][1] is None:
+            res.bad("%s:shape" % name, "shift amount is not `base + i * stride` with two constants: reader %r, writer %r (fail closed)" % (rshift, wshift), rd.loc())
+            continue
+        (B_r, S_r), (B_w, S_w) = rshift[0][1], wshift[0][1]
+        W = l1_widths[0][2]
+        ok = True
+        if (B_r, S_r) != (B_w, S_w):
+            res.bad("%s:shift" % name, "rank_at_word reads the block offsets at `%d + i*%d`, build stores them at `%d + i*%d`" % (B_r, S_r, B_w, S_w), rd.loc(rshift[0][0]))
+            ok = False
+        if m1 != (1 << B_w) - 1 or W != B_w:
+            res.bad("%s:l1-mask" % name, "build stores the cumulative count as %s (%d bits) below bit %d, rank_at_word keeps `entry & %#x` (%d bits): counts of 2^%d and more lose their high bits" % (l1_widths[0][1], W, B_w, m1, bin(m1).count("1"), bin(m1).count("1")), rd.loc(masks[0][0]))
+            ok = False
+        if m2 != (1 << S_w) - 1:
+            res.bad("%s:l2-mask" % name, "build stores block offsets %d bits apart, rank_at_word masks them with %#x" % (S_w, m2), rd.loc(masks[-1][0]))
+            ok = False
+        if ok:
+            res.ok({"l1_bits": W, "l2_base": B_w, "l2_stride": S_w, "reader_masks": [hex(m1), hex(m2)]})
+    return out
